@@ -281,6 +281,9 @@ class Replay:
                     inc['fault'] = {'enq@raise': 'poison', 'enq@stuck': 'stuck', 'enq@busy': 'busy', 'enq@slow': 'slowres'}[op]
             except WCE:
                 out = 'WCE'
+            except Exception as e:  # noqa - the exact exception type is the observation (only WorkerClosedError is a refusal)
+                out = 'raised:' + type(e).__name__
+                self.notes.append('enqueue raised %r' % (e,))
             if self.late:
                 inc['late'].append(out)
             elif inc['first'] == 'none':
@@ -326,6 +329,9 @@ class Replay:
                 out = 'WCE'
             except Empty:
                 out = empty_kind()
+            except Exception as e:  # noqa - see enqueue
+                out = 'raised:' + type(e).__name__
+                self.notes.append('call raised %r' % (e,))
             if accepted:
                 inc['enq'].append(it)
                 crec['k'] = len(inc['enq'])
@@ -708,7 +714,8 @@ def model_check(ev, prop, tier):
     if prop == 'C05':
         prefetch('PersistentMC', [('blockafterclose', _cfg('Persistent_mc.cfg', BlockAfterClose='FALSE')),
                                   ('prefix', open(os.path.join(tlc.SPEC, 'Persistent_prefix.cfg')).read())] +
-                 [(w, _cfg('Persistent_mc.cfg', inv=[w])) for w in ('W_NoFullStream', 'W_NoLate', 'W_NoCleanCall', 'W_NoLongerArgs', 'W_NoBlockingReadAfterClose')])
+                 [('closedguard', _cfg('Persistent_mc.cfg', ClosedGuard='FALSE'))] +
+                 [(w, _cfg('Persistent_mc.cfg', inv=[w])) for w in ('W_NoFullStream', 'W_NoLate', 'W_NoCleanCall', 'W_NoLongerArgs', 'W_NoBlockingReadAfterClose', 'W_NoEnqueueOnClosedRunning')])
     else:
         prefetch('PersistentMC', [(w, _cfg('Persistent_c17.cfg', inv=[w])) for w in ('W_NoRestartUnread', 'W_NoRestartRaised', 'W_NoRestartKilled', 'W_NoSecondRestart')] +
                  [(w, _cfg('Persistent_c17.cfg', inv=[w], Ops='Ops_c17timed')) for w in ('W_NoTimedRestartOfBusy', 'W_NoTimedRestartOfSlowFrontend')] +
@@ -737,7 +744,11 @@ def model_check(ev, prop, tier):
         if rb.error != 'invariant:Inv_C05_End':
             raise MachineryError('non-blocking read of a closed but still working worker is not rejected by the model checker: %s' % rb.error)
         wit['variant_BlockAfterClose_FALSE'] = rb.error
-        for w in ('W_NoFullStream', 'W_NoLate', 'W_NoCleanCall', 'W_NoLongerArgs', 'W_NoBlockingReadAfterClose'):
+        rg = _sr('PersistentMC', cfg_text=_cfg('Persistent_mc.cfg', ClosedGuard='FALSE'), name='closedguard', must_complete=False)
+        if rg.error != 'invariant:Inv_C05_Closed':
+            raise MachineryError('enqueue on a closed, still running process worker raising OSError is not rejected by the model checker: %s' % rg.error)
+        wit['variant_ClosedGuard_FALSE'] = rg.error
+        for w in ('W_NoFullStream', 'W_NoLate', 'W_NoCleanCall', 'W_NoLongerArgs', 'W_NoBlockingReadAfterClose', 'W_NoEnqueueOnClosedRunning'):
             rw = _sr('PersistentMC', cfg_text=_cfg('Persistent_mc.cfg', inv=[w]), name=w, must_complete=False)
             if rw.error != 'invariant:' + w:
                 raise MachineryError('witness %s not reachable (vacuous model): %s' % (w, rw.error))
@@ -917,7 +928,10 @@ def run(prop, tier, replay=None):
         nforced = 0
         for kind in KINDS:
             for ops_ in (['enq', 'close', 'nextb'], ['enq', 'enq', 'close', 'nextb', 'nextb', 'nextb'],
-                         ['enq', 'enq', 'close', 'iter'], ['enq', 'waitS', 'nextb', 'nextb'], ['enq', 'enq', 'waitS', 'iter']):
+                         ['enq', 'enq', 'close', 'iter'], ['enq', 'waitS', 'nextb', 'nextb'], ['enq', 'enq', 'waitS', 'iter'],
+                         # enqueue()/call() on a closed worker whose child is still busy: WorkerClosedError, nothing else
+                         ['enq', 'close', 'enq'], ['enq', 'close', 'call'], ['enq', 'waitS', 'enq'], ['enq', 'waitS', 'call'],
+                         ['enq', 'enq', 'close', 'enq', 'call']):
                 for _ in range(1 if quick else 4):
                     j = add(kind, [[o, '?', 'F', 'idle', 0] for o in ops_], mode='eager')
                     j['slow'], j['mut'], j['forced'] = True, False, True
